@@ -233,6 +233,14 @@ def bases(ctx, d):
             if signrun.sign_single(p, q, keys, "kp256", 0x4000AA00, "es-256", "error") is None and q.exists():
                 data = q.read_bytes()
         out.append(data)
+    # 4: a manifest with an encryption info parameter (byte-string-wrapped COSE_Encrypt_Tagged with a recipient): 'bare' on its
+    # wrapper yields the single-wrapped form, kinds replace the tag and its fields
+    from . import wiregen
+    desc = wiregen.base()
+    desc["SUIT_Envelope_Tagged"]["suit-manifest"]["suit-install"] = [{"suit-directive-override-parameters": {
+        "suit-parameter-encryption-info": wiregen.param_value("suit-parameter-encryption-info", 1), "suit-parameter-uri": "#fw"}},
+        {"suit-directive-fetch": []}]
+    out.append(toolrun.create_lib(desc))
     return out
 
 
@@ -381,6 +389,31 @@ def run(ctx: core.Check):
             n += 1
             mutants[n] = c_
             meta[n] = {"base": -1, "muts": f"dependency-chain-{depth}"}
+    # command sequences nested through byte strings (try-each: a list of wrapped sequences; run-sequence: one wrapped sequence)
+    import hashlib
+
+    def nested(code, depth):
+        inner = cborx.dumps([14, 2])
+        for _ in range(depth):
+            inner = cborx.dumps([15, [inner]]) if code == 15 else cborx.dumps([32, inner])
+        mfb = cborx.dumps(cborx.Pairs([(1, 1), (2, 1), (3, cborx.dumps(cborx.Pairs([(2, [[b"M"]])]))), (7, inner)]))
+        auth = cborx.dumps([cborx.dumps([-16, hashlib.sha256(cborx.dumps(mfb)).digest()])])
+        return b"\xd8\x6b\xa2\x02" + cborx.dumps(auth) + b"\x03" + cborx.dumps(mfb)
+    for code in (15, 32):
+        for depth in ((40, 160, 250, 400, 900) if ctx.quick else (10, 40, 100, 160, 200, 230, 250, 260, 300, 400, 600, 900, 1500)):
+            x = nested(code, depth)
+            if len(x) <= 65536:
+                n += 1
+                mutants[n] = x
+                meta[n] = {"base": -1, "muts": f"nested-{'try-each' if code == 15 else 'run-sequence'}-{depth}"}
+    # a tag-96 item with a malformed body where the encryption info parameter is expected (single byte-string wrapper)
+    for body in (b"\x01", b"\x82\x01\x02", b"\xa1\x01\x02", b"\x84\x40\xa0\xf6\x01", b"\x61x", b"\x84\x40\xa0\xf6\x80"):
+        seq = cborx.dumps([20, cborx.Pairs([(19, b"\xd8\x60" + body)])])
+        mfb = cborx.dumps(cborx.Pairs([(1, 1), (2, 1), (3, cborx.dumps(cborx.Pairs([(2, [[b"M"]])]))), (20, seq)]))
+        auth = cborx.dumps([cborx.dumps([-16, hashlib.sha256(cborx.dumps(mfb)).digest()])])
+        n += 1
+        mutants[n] = b"\xd8\x6b\xa2\x02" + cborx.dumps(auth) + b"\x03" + cborx.dumps(mfb)
+        meta[n] = {"base": -1, "muts": "tag96-" + body.hex()}
     # bare cut-short heads and other tiny whole inputs (no envelope around them)
     tiny = [b""] + [bytes([b0]) + b"\x00" * z for b0 in range(256) for z in ((0, 1, 3, 7) if (b0 & 0x1F) >= 24 else (0,))]
     if ctx.quick:
